@@ -513,6 +513,53 @@ fn main() {
     } else {
         let mut rng = Rng::new(args.seed ^ 0xC19);
         let n = n_cases(&args, 20000, 400000);
+        if args.tier == "thorough" && args.cases.is_none() {
+            // exhaustive part of the quantifier: every offset 0..=130 and length 0..=200 for the
+            // single-range operations (5 content classes each), and a dense grid of
+            // (write offset, read offset, length) triples for set_bits / apply_bitwise_binary_op.
+            let mut class = 0u64;
+            for off in 0..=130usize {
+                for len in 0..=200usize {
+                    let nbytes = (off + len + 7) / 8 + 1;
+                    for _ in 0..2 {
+                        class += 1;
+                        let b = match class % 5 {
+                            0 => vec![0u8; nbytes],
+                            1 => vec![0xFFu8; nbytes],
+                            2 => vec![0xAAu8; nbytes],
+                            _ => rng.bytes(nbytes),
+                        };
+                        let var = rng.usize(192);
+                        let op = ["chunks", "not", "count", "bits", "indices", "slices"][(class % 6) as usize];
+                        let line = format!("C19 {} {} {} {} {}", op, var, hex(&b), off, len);
+                        let a = run_case(&line);
+                        sink.case(line, a, &format!("op:{} exhaustive {}", op, nontrivial(off, len)));
+                    }
+                }
+            }
+            let read_offs: Vec<usize> = (0..16).chain(56..73).chain(120..131).collect();
+            for ow in 0..=130usize {
+                for &or in &read_offs {
+                    for len in 0..=200usize {
+                        class += 1;
+                        let s = rng.bytes((or + len + 7) / 8 + 1);
+                        let nb = (ow + len + 7) / 8 + 1;
+                        let mut d = rng.bytes(nb);
+                        let line = if class % 3 == 0 {
+                            let op = ["and", "or", "xor", "andnot"][(class % 4) as usize];
+                            format!("C19 applybin {} {} {} {} {} {}", op, hex(&d), ow, hex(&s), or, len)
+                        } else {
+                            for i in ow..ow + len {
+                                d[i / 8] &= !(1 << (i % 8));
+                            }
+                            format!("C19 setbits {} {} {} {} {}", hex(&d), hex(&s), ow, or, len)
+                        };
+                        let a = run_case(&line);
+                        sink.case(line, a, &format!("exhaustive {}", nontrivial(ow.max(or), len)));
+                    }
+                }
+            }
+        }
         for _ in 0..n {
             let (line, tags) = gen_case(&mut rng);
             let a = run_case(&line);
